@@ -18,6 +18,8 @@ pub enum Call {
     Compress(Vec<u8>),
     Rename(Vec<u8>, Vec<u8>, Vec<u8>, bool),
     Synth(String),
+    /// text name -> wire name with an optional default zone (used by record synthesis and the C table)
+    RawName(Vec<u8>, Option<Vec<u8>>),
 }
 
 impl Call {
@@ -28,6 +30,7 @@ impl Call {
             Call::Compress(_) => "compress",
             Call::Rename(..) => "rename",
             Call::Synth(_) => "synth",
+            Call::RawName(..) => "raw_name",
         }
     }
     /// Evaluate; the result is reduced to bytes (verdict + output + view).
@@ -68,6 +71,10 @@ impl Call {
                 Err(_) => b"E".to_vec(),
                 Ok(rr) => [b"O".to_vec(), rr.packet].concat(),
             },
+            Call::RawName(n, z) => match dnssector::synth::r#gen::raw_name_from_str(n, z.as_deref()) {
+                Err(_) => b"E".to_vec(),
+                Ok(w) => [b"O".to_vec(), w].concat(),
+            },
         }
     }
     pub fn encode(&self) -> String {
@@ -77,6 +84,7 @@ impl Call {
             Call::Compress(x) => format!("compress:{}", hex(x)),
             Call::Rename(x, t, s, f) => format!("rename:{}:{}:{}:{}", hex(x), hex(t), hex(s), *f as u8),
             Call::Synth(t) => format!("synth:{}", hex(t.as_bytes())),
+            Call::RawName(n, z) => format!("rawname:{}:{}", hex(n), z.as_ref().map(|z| format!("z{}", hex(z))).unwrap_or_else(|| "none".into())),
         }
     }
     pub fn decode(s: &str) -> Option<Call> {
@@ -87,6 +95,7 @@ impl Call {
             "compress" => Call::Compress(unhex(p.get(1)?)),
             "rename" => Call::Rename(unhex(p.get(1)?), unhex(p.get(2)?), unhex(p.get(3)?), *p.get(4)? == "1"),
             "synth" => Call::Synth(String::from_utf8(unhex(p.get(1)?)).ok()?),
+            "rawname" => Call::RawName(unhex(p.get(1)?), p.get(2).and_then(|z| z.strip_prefix('z')).map(unhex)),
             _ => return None,
         })
     }
@@ -138,6 +147,29 @@ pub fn pool(rng: &mut Rng) -> Vec<Call> {
     for _ in 0..4 {
         calls.push(Call::Synth(valid_text(rng, None).text));
     }
+    // calls that FAIL belong to the pool as well: state abandoned on an error path is the likeliest leak
+    {
+        let long = crate::gen::valid::name_of_wire_len(rng, 240);
+        let mut m = Msg { id: rng.u16(), flags: 0x8180, ..Default::default() };
+        m.question.push(Question { name: Name(vec![b"www".to_vec()]).concat(&zone), qtype: 1, qclass: 1 });
+        m.sec[0].push(Record { name: Name(vec![b"a".to_vec()]).concat(&zone), rtype: T_A, class: 1, ttl: 1, rdata: RData::A([1, 1, 1, 1]) });
+        let lit = m.encode_literal();
+        // a rewritten name would exceed 255 bytes: the rename must fail, every time, and leave nothing behind
+        calls.push(Call::Rename(lit.clone(), long.to_wire(), zone.to_wire(), true));
+        calls.push(Call::Rename(lit.clone(), Name::from_labels(&[b"ok", b"net"]).to_wire(), zone.to_wire(), true));
+        calls.push(Call::Compress(lit[..lit.len() - 3].to_vec()));
+        calls.push(Call::Uncompress(lit[..lit.len() - 1].to_vec()));
+        calls.push(Call::Synth("broken 300 IN A 1.2.3".into()));
+        let ztxt: String = zone.0.iter().map(|l| l.iter().map(|&c| if c.is_ascii_alphanumeric() { c as char } else { 'x' }).collect::<String>()).collect::<Vec<_>>().join(".");
+        calls.push(Call::Synth(format!("{}. 300 IN NS ns1", ztxt)));
+    }
+    // the same text names with different default zones, and with none
+    for n in [&b"ns1"[..], b"www", b"ns1.", b"a.b"] {
+        calls.push(Call::RawName(n.to_vec(), None));
+        calls.push(Call::RawName(n.to_vec(), Some(zone.to_wire())));
+        calls.push(Call::RawName(n.to_vec(), Some(Name::from_labels(&[b"other", b"org"]).to_wire())));
+    }
+    calls.push(Call::RawName(b"bad..name".to_vec(), Some(zone.to_wire())));
     // a couple of unrelated packets as well
     for _ in 0..2 {
         let v = gen_valid(rng, &Cfg::default());
@@ -174,7 +206,7 @@ pub fn pure_one(arg: &str) -> i32 {
 pub fn run(ctx: &mut Ctx) {
     let thorough = ctx.tier == "thorough";
     // (a) + (b): pools
-    let npools = ctx.scaled(if thorough { 40_000 } else { 1_600 });
+    let npools = ctx.scaled(if thorough { 40_000 } else if ctx.tier == "tsan" { 64 } else { 1_600 });
     let fresh_every = if thorough { 40 } else { 50 };
     for case in ctx.phase("pools", npools) {
         if ctx.out_of_time() {
@@ -184,7 +216,7 @@ pub fn run(ctx: &mut Ctx) {
         let mut rng = Rng::for_case(ctx.seed, "c17", 0, case);
         let calls = Arc::new(pool(&mut rng));
         let in_proc: Vec<u64> = calls.iter().map(|c| hash_bytes(&c.eval())).collect();
-        let base: Vec<u64> = if case % fresh_every == 0 {
+        let base: Vec<u64> = if case % fresh_every == 0 && ctx.tier != "tsan" {
             match base_in_fresh_process(&calls) {
                 Some(b) => {
                     ctx.count("pools_with_fresh_process_baseline");
